@@ -55,6 +55,7 @@ type Outcome struct {
 	ProbeN      int     `json:"probe_n,omitempty"`
 	ProbeOver10 int     `json:"probe_over10,omitempty"` // samples that overshot by more than 10 ms
 	Suspicious bool   `json:"suspicious,omitempty"`
+	MustExit bool     `json:"must_exit,omitempty"` // a sync never returned: the worker cannot go on with this process
 	Crash    string   `json:"crash,omitempty"` // the worker process died while running this history: panic text
 	Hung     bool     `json:"hung,omitempty"`
 	Tries    int      `json:"tries,omitempty"`
@@ -90,7 +91,10 @@ func (wk *worker) runOnce(h *Hist) Outcome {
 		ops[i] = o
 	}
 	eff, obs, late := w.History(h.Cfg, ops)
-	out := Outcome{Obs: obs, Late: late, Eff: eff}
+	out := Outcome{Obs: obs, Late: late, Eff: eff, MustExit: w.MustExit}
+	for len(out.Eff) > len(out.Obs) {
+		out.Eff = out.Eff[:len(out.Obs)]
+	}
 	annOK := map[int]bool{} // heads whose announce-triggered sync succeeded: later announces are duplicates
 	for oi, o := range obs {
 		// A client timeout that fires on a request that was not made to stall (machine
@@ -112,6 +116,9 @@ func (wk *worker) runOnce(h *Hist) Outcome {
 		// a success notification that did not arrive after an explicit sync returned nil:
 		// late or missing; run again with longer waits to tell
 		if eff[oi].Mode == "explicit" && o.Result == "ok" && o.Cid != o.Latest0 && len(o.Events) == 0 {
+			out.Suspicious = true
+		}
+		if o.Result == "hung" {
 			out.Suspicious = true
 		}
 		// No notification for an announcement of a head that is not synced: either a
@@ -157,7 +164,7 @@ func (wk *worker) run(j *job) Outcome {
 		if out.ProbeMaxMs > ProbeLimitMs && !out.Unstable {
 			out.Unstable, out.Why = true, fmt.Sprintf("the worker process was kept from running for %.0f ms during the history", out.ProbeMaxMs)
 		}
-		if !out.Unstable && !(out.Suspicious && try < tries) {
+		if out.MustExit || (!out.Unstable && !(out.Suspicious && try < tries)) {
 			break
 		}
 	}
@@ -511,6 +518,18 @@ func signature(name string, h *Hist) string {
 		ops = append(ops, opText(o))
 	}
 	s := fmt.Sprintf("%s:%s:alive=%s:seg%d", name, h.Kind, al, h.Cfg.Seg)
+	if h.Cfg.MaxAsync != 0 {
+		s += fmt.Sprintf(":maxasync%d", h.Cfg.MaxAsync)
+	}
+	if h.Cfg.NoHook {
+		s += ":nohook"
+	}
+	if h.Cfg.NonStrict {
+		s += ":nonstrict"
+	}
+	if h.Cfg.FilterIPs {
+		s += ":filterips"
+	}
 	if h.Cfg.Latest0 != 0 {
 		s += fmt.Sprintf(":latest%d", h.Cfg.Latest0)
 	}
@@ -626,14 +645,19 @@ func coqCase(h *Hist, out Outcome) string {
 	}
 	hist := make([]string, len(out.Eff))
 	for i := range out.Eff {
-		hist[i] = "(" + coqOp(out.Eff[i], h.Kind) + ", " + coqObs(out.Eff[i], out.Obs[i]) + ")"
+		op := out.Eff[i]
+		if h.Cfg.FilterIPs && op.Mode == "announce" {
+			op.Addrs = nil // the receiver drops the (loopback) addresses from the announcement
+		}
+		hist[i] = "(" + coqOp(op, h.Kind) + ", " + coqObs(op, out.Obs[i]) + ")"
 	}
 	pre := append([]int(nil), h.Cfg.Pre...)
 	sort.Ints(pre)
-	return fmt.Sprintf("(Build_hcase (Build_fixes %s %s %s) (Build_world %s %s %s) %s %s %s %s)",
+	return fmt.Sprintf("(Build_hcase (Build_fixes %s %s %s true) (Build_world %s %s %s) %s %s %s %s %s %s)",
 		vlib.CoqBool(np), vlib.CoqBool(rot), vlib.CoqBool(ann),
 		kind, vlib.CoqBool(h.Kind == "legacy"), vlib.CoqList(al),
-		vlib.CoqNat(h.Cfg.Seg), coqNatList(pre), vlib.CoqNat(h.Cfg.Latest0), vlib.CoqList(hist))
+		vlib.CoqNat(h.Cfg.Seg), coqNatList(pre), vlib.CoqNat(h.Cfg.Latest0), vlib.CoqList(hist),
+		vlib.CoqNat(h.Cfg.MaxAsync), vlib.CoqBool(h.Cfg.NoHook))
 }
 
 func noInjected(o fd.Obs) bool {
